@@ -479,6 +479,10 @@ func checkAndExtractFieldType(paths []string, typ reflect.Type) (extracted refle
 
 			return nil, false, fmt.Errorf("intermediate type[%v] is not valid", extracted)
 		}
+
+		if extracted.Kind() != reflect.Interface {
+			return nil, false, fmt.Errorf("type[%v] has neither field nor map key[%s]", extracted, field)
+		}
 	}
 
 	return extracted, false, nil
